@@ -52,6 +52,9 @@ struct Shared {
     odrop: Mutex<String>,
     in_poll: std::sync::atomic::AtomicBool,
     scheduled_during_poll: std::sync::atomic::AtomicBool,
+    /// the last poll woke its own task and returned Pending
+    woke_pending: std::sync::atomic::AtomicBool,
+    cancelled: std::sync::atomic::AtomicBool,
 }
 
 impl Shared {
@@ -77,6 +80,7 @@ impl Shared {
             'x' => {
                 let t = self.token.lock().unwrap().take();
                 if let Some(t) = t {
+                    self.cancelled.store(true, Ordering::SeqCst);
                     t.cancel();
                 }
             }
@@ -131,6 +135,7 @@ impl Future for ScriptFut {
                 c => self.sh.act(c),
             }
         }
+        self.sh.woke_pending.store(item.contains('w') && !item.contains('r'), Ordering::SeqCst);
         if item.contains('r') {
             Poll::Ready(Out(self.sh.clone()))
         } else {
@@ -144,7 +149,7 @@ impl Engine for TaskEngine {
         "task"
     }
     fn serves(&self) -> &'static [&'static str] {
-        &["C13", "C05"]
+        &["C13", "C05", "C04"]
     }
     fn isolated(&self) -> bool {
         true
@@ -300,7 +305,13 @@ impl Engine for TaskEngine {
                     let r = sh.queue.lock().unwrap().pop();
                     match r {
                         Some(r) => {
+                            sh.woke_pending.store(false, Ordering::SeqCst);
                             r.run();
+                            if sh.woke_pending.load(Ordering::SeqCst) && !sh.cancelled.load(Ordering::SeqCst) && sh.queue.lock().unwrap().is_empty() {
+                                let what = "the task was woken while it was being polled and returned Pending, but it was neither polled again nor rescheduled: the wake-up is lost and the computation is left half-way";
+                                out.monitor.push(("C04".into(), what.into()));
+                                out.monitor.push(("C13".into(), what.into()));
+                            }
                             obs("")
                         }
                         None => "no-runnable".into(),
@@ -361,6 +372,7 @@ impl Engine for TaskEngine {
                 }
                 ["cancel"] => match { let t = sh.token.lock().unwrap().take(); t } {
                     Some(t) => {
+                        sh.cancelled.store(true, Ordering::SeqCst);
                         t.cancel();
                         wakes += 1;
                         obs("")
